@@ -158,7 +158,9 @@ func (w enumWant) canon() string {
 	return sb.String()
 }
 
-func undefinedWant() enumWant { return enumWant{kind: "value", val: tengo.UndefinedValue, logMode: "exact"} }
+func undefinedWant() enumWant {
+	return enumWant{kind: "value", val: tengo.UndefinedValue, logMode: "exact"}
+}
 
 type enumRow struct {
 	shape string // "xf": (x, fn); "xa": (x, arg); "kv": (k, v)
